@@ -58,6 +58,12 @@ func (p *Pool[T]) Put(x T, size int) {
 		return
 	}
 
+	// only exact size classes are reusable: Get serves every request of a class from the
+	// shard that class maps to, so a smaller object must never be parked in that shard.
+	if p.size(size) != size {
+		return
+	}
+
 	if idx := (size - 1) / p.stepSize; idx < len(p.pool) {
 		p.pool[idx].Put(x)
 	}
